@@ -20,6 +20,22 @@ def cq_op(o):
     raise ValueError(o["op"])
 
 
+def cq_cev(o):
+    if o["op"] == "cput":
+        return "CPut %s %s %s" % (C.cq_str(o.get("ns", "")), C.cq_str(o.get("name", "")), cq_ver(o))
+    if o["op"] == "cdel":
+        return "CDel %s %s" % (C.cq_str(o.get("ns", "")), C.cq_str(o.get("name", "")))
+    if o["op"] == "drain":
+        return "CDrain"
+    if o["op"] == "get":
+        return "CGet %s" % C.cq_str(o.get("key", ""))
+    raise ValueError(o["op"])
+
+
+def is_ctl(c):
+    return "ctl" in c.get("class", "")
+
+
 def cq_step(s):
     ls = C.cq_list(["(%s, (%s, %s))" % (C.cq_str(f["name"]), C.cq_z(f["mode"]), C.cq_str(f["hash"])) for f in s["ls"]])
     return "(%s, %s, %s)" % (ls, C.cq_str(s.get("path", "")), C.cq_bool(s.get("err", False)))
@@ -30,6 +46,10 @@ def case_to_coq(c):
         o = c["obs"]
         return "consts_case %s %s %s" % (C.cq_list([C.cq_str(t) for t in o["types"]]), C.cq_list([C.cq_z(m) for m in o["modes"]]),
                                          C.cq_list([C.cq_str(k) for k in o["keys"]]))
+    if is_ctl(c):
+        return "ctl_case %d %s %s" % (c["id"], C.cq_list([cq_cev(o) for o in c["ops"]]),
+                                      C.cq_list(["(%s, %s)" % (cq_step(s), C.cq_list([C.cq_str(k) for k in s.get("synced") or []]))
+                                                 for s in c["obs"]["steps"]]))
     return "hist_case %d %s %s" % (c["id"], C.cq_list([cq_op(o) for o in c["ops"]]),
                                    C.cq_list([cq_step(s) for s in c["obs"]["steps"]]))
 
@@ -80,7 +100,7 @@ def signature(c, row):
         return {"kind": "stale-file", "cause": "type-change"}, "the Secret changed its type while materialised; the file of the old type stays"
     if hadca and direction == 1 and fidx in (1, 2):
         return {"kind": "stale-file", "cause": "ca-files-not-deleted"}, "CA files stay after the Secret became invalid / was deleted"
-    return ({"kind": "spec", "file": FILE_OF.get(fidx, "?"), "direction": {1: "present-but-not-expected", 2: "missing-or-wrong-content"}.get(direction, "?")},
+    return ({"kind": "spec", "family": "controller" if is_ctl(c) else "store", "file": FILE_OF.get(fidx, "?"), "direction": {1: "present-but-not-expected", 2: "missing-or-wrong-content"}.get(direction, "?")},
             "the files derived from a Secret are not exactly the derivation of its current valid, asked-for version")
 
 
@@ -103,7 +123,7 @@ def judge(run, cases, res, st):
                         theorem="Secrets.Cases (no panic)")
     for c in cases:
         for o in c.get("ops", []):
-            if o["op"] == "upsert" and o["valid"] != o.get("want", o["valid"]):
+            if o["op"] in ("upsert", "cput") and o["valid"] != o.get("want", o["valid"]):
                 run.failing({"kind": "validator-verdict", "type": o.get("type", ""), "payload": o.get("payload", "")}, [c],
                             "secrets.ValidateSecret says %s for a %s Secret with payload '%s' built to be %s (case %d)"
                             % ("valid" if o["valid"] else "invalid", o.get("type", ""), o.get("payload", ""),
@@ -129,7 +149,7 @@ def judge(run, cases, res, st):
             st["spec_failed_ids"].add(cid)
             st["spec_false"][json.dumps(sig, sort_keys=True)] = st["spec_false"].get(json.dumps(sig, sort_keys=True), 0) + 1
             run.failing(sig, [c], "C11 fails on the implementation's own directory listing at step %d of case %d (class %s): %s"
-                        % (row[6], cid, c["class"], what), theorem="Secrets.Spec.listing_ok / get_err_expected (decidable form of C11_inv, C11_materialised, C11_get_reports_error)")
+                        % (row[6], cid, c["class"], what), theorem=("controller family: current cluster object after lbc.sync vs " if is_ctl(c) else "") + "Secrets.Spec.listing_ok / get_err_expected (decidable form of C11_inv, C11_materialised, C11_get_reports_error)")
 
 
 TRUSTED = [
@@ -137,6 +157,9 @@ TRUSTED = [
     "hand-written model coq/Secrets/Model.v of LocalSecretStore + Configurator.AddOrUpdateSecret/DeleteSecret + the Path overwrite in "
     "addOrUpdateIngress + LocalManager.CreateSecret/DeleteSecret, tied by the correspondence harness harness/overlay/internal/verifh/c11 "
     "(real store over real Configurator over real LocalManager on a temporary root; directory listing with modes and content hashes after every operation)",
+    "controller family: hook harness/overlay/internal/k8s/zz_verif_c11.go (production constructor with fake clientsets, informers not started: the "
+    "harness changes the Secret informer store and calls the handler the informer would call; tasks are taken off the queue before lbc.sync so that "
+    "batch mode, which only postpones reloads, is not entered); model of handlers + queue + syncSecret: cstep/crun in Secrets/Model.v",
     "validity of a Secret version is an oracle: the verdict of the real secrets.ValidateSecret, obtained by the harness (crypto/tls, x509, pem are called, not modelled)",
     "expected derived bytes per version are computed by the harness itself (not through the Configurator) and compared as SHA-256 prefixes (64 bit)",
     "the filesystem (os.CreateTemp, Chmod, Rename, Remove) is called, not modelled; a crash between temp-file write and rename is not modelled",
@@ -149,7 +172,7 @@ def finish(run, st):
         st["variant"] = "as-is (CA files are not removed by DeleteSecret)"
         bad = []
     elif not st["disagreeB"]:
-        st["variant"] = "repaired (fixes/F30.diff: DeleteSecret removes the CA files too)"
+        st["variant"] = "repaired (fixes/F34.diff: DeleteSecret removes the CA files too)"
         bad = []
     else:
         st["variant"] = "neither"
@@ -170,11 +193,15 @@ def finish(run, st):
                        "configured through the real Configurator 10% in the classes force/mixed) over 2-4 Secrets; types: all 7 supported ones, 6 unsupported; "
                        "payloads: 3 real ed25519 key pairs, mismatched pair, non-PEM, missing keys, wrong PEM block, bad DER, OIDC secrets with forbidden "
                        "characters, duplicate API keys, empty data; classes clean/force (dash-free namespaces, no CA), ca, collide (a-b/c vs a/b-c), casuffix "
-                       "(x as CA vs x-ca.crt), retype, mixed, plus 7 fixed witness histories of the refutation theorems.  A case is distinct by its operations "
+                       "(x as CA vs x-ca.crt), retype, mixed, plus fixed witness histories of the refutation theorems.  Every fifth history is of the controller "
+                       "family (class ctl): cluster-level Secret events (create, update keeping the type, delete, delete-and-recreate with another "
+                       "type / unsupported type / invalid payload) delivered to the real createSecretHandlers of a controller built by NewLoadBalancerController, "
+                       "with the real work queue drained through the real lbc.sync at arbitrary points and lookups through lbc.secretStore; S compares the "
+                       "directory with the object the cluster holds whenever no event is outstanding.  A case is distinct by its operations "
                        "(without oracles); it is non-trivial when some file appears in the secrets directory.")
     run.cov["trusted_base"] = TRUSTED
     run.assumptions += ["Kubernetes names contain no '/' (hypothesis of the theorems, enforced by the generator)",
-                        "Secret.type is immutable while the object exists (hypothesis type_stable; histories violating it are generated and reported as F31)",
+                        "Secret.type is immutable while the object exists (hypothesis type_stable; histories violating it are generated and reported as F35)",
                         "special secrets written by other routes (default, wildcard, license.jwt, mgmt/*, dhparam.pem) are not part of the model"]
 
 
@@ -197,7 +224,8 @@ def check(run):
     for k in range(0, len(cases), shard):
         part = cases[k:k + shard]
         judge(run, part, evaluate(run, part, "%s_%d" % (run.tier, k // shard)), st)
-    for c in [x for x in cases if x["class"] == "witness-force"][:1] + [x for x in cases if x["class"] == "clean"][:2]:
+    for c in ([x for x in cases if x["class"] == "witness-force"][:1] + [x for x in cases if x["class"] == "clean"][:1] +
+              [x for x in cases if x["class"] == "witness-ctl-recreated-unsupported"][:1]):
         run.sample(c)
     finish(run, st)
 
@@ -219,10 +247,11 @@ def replay(run, path):
         print("replay case %d (class %s): model-agrees(as-is)=%d model-agrees(repaired)=%d spec=%d first-failing-step=%d verdict=%s"
               % (c["id"], c["class"], r[1], r[5], r[2], r[6], r[7:]))
         for i, (o, s) in enumerate(zip(c["ops"], c["obs"]["steps"])):
-            key = o.get("key", "") if o["op"] in ("get", "delete") else o.get("ns", "") + "/" + o.get("name", "")
+            key = o.get("key", "") if o["op"] in ("get", "delete", "drain") else o.get("ns", "") + "/" + o.get("name", "")
             print("  %2d %-6s %-24r %-22s %-14s %-13s -> path=%r err=%s ls=%s" % (
                 i, o["op"] + (":" + o["ann"] if o.get("ann") else ""), key, o.get("type", ""), o.get("payload", ""),
-                ("valid=%s" % o.get("valid")) if o["op"] == "upsert" else "", s.get("path"), s.get("err"),
+                ("valid=%s" % o.get("valid")) if o["op"] in ("upsert", "cput") else
+                ("synced=%s" % (s.get("synced") or [])) if o["op"] == "drain" else "", s.get("path"), s.get("err"),
                 [(f["name"], oct(f["mode"]), f["hash"][:6]) for f in s["ls"]]))
     st = new_stats()
     judge(run, cases, res, st)
